@@ -12,7 +12,15 @@ _ctx = {}
 
 
 def err(e):
-    return {'error': '%s: %s' % (type(e).__name__, str(e)[:160])}
+    # a ValueError that asFastq (or a helper it calls) raises itself is the refusal of an over-long header; it is
+    # recognised by where it is raised, not by the wording of its message
+    import traceback
+    msg = str(e)[:160]
+    if isinstance(e, ValueError):
+        frames = [f.name for f in traceback.extract_tb(e.__traceback__)]
+        if 'asFastq' in frames and 'length of the demultiplexed header' not in msg:
+            msg = '[length of the demultiplexed header] ' + msg
+    return {'error': '%s: %s' % (type(e).__name__, msg)}
 
 
 def reflect():
